@@ -137,6 +137,7 @@ def gen_U(rng, valid, for_fn):
                     U = U + E
         else:
             kind = rng.weighted([("stretch", 3), ("shear", 3), ("tilt", 3), ("offdiag", 2), ("diag_det1", 3), ("diag", 1),
+                                 ("diag_pair", 2),
                                  ("entry", 2), ("improper", 2),
                                  ("neg", 1), ("scale", 1), ("axis_scale", 1), ("axis_bump", 2), ("axis_entry", 1)])
             R = random_rotation(rng)
@@ -168,6 +169,12 @@ def gen_U(rng, valid, for_fn):
                 s = rng.loguniform(3e-3, 0.3)
                 E = np.array([[rng.uniform(-s, s) for _ in range(3)] for _ in range(3)])
                 U = R + E
+            elif kind == "diag_pair":
+                # two of the three axes rescaled by the SAME factor, the third left alone
+                a_ = 1.0 + rng.loguniform(3e-3, 0.6) * (1 if rng.chance(0.5) else -1)
+                f = [a_, a_, 1.0]
+                rng.shuffle(f)
+                U = R.dot(np.diag(f)) if rng.chance(0.7) else np.diag(f).dot(R)
             elif kind in ("diag_det1", "diag"):
                 # columns (or rows) rescaled but kept perpendicular: only the LENGTHS are wrong; with "det1" the product
                 # of the three factors is 1, so the determinant test cannot see it either
@@ -496,7 +503,8 @@ def generate(rng, tier, index):
                     ops.append(["pcall", fk, iid, rng.below(1 << 16), _pick_assign(rng, allow_invalid_assign), rd])
             else:
                 ops.append(["call", fk, iid, rd])
-    cfg = {"fault_free": not (allow_invalid_assign or allow_preempt), "scribble": rng.chance(0.3)}
+    cfg = {"fault_free": not (allow_invalid_assign or allow_preempt), "scribble": rng.chance(0.3),
+           "logging": rng.weighted([("quiet", 5), ("default", 2), ("debug", 3)])}
     if rng.chance(0.3):
         # two real client threads (baton passing): which one performs each operation
         p1 = rng.choice([0.2, 0.5])
@@ -800,8 +808,9 @@ def execute(trace):
                 raise _Violation("invalid input accepted while switched on", fk,
                                  "%s kind=%s -> %s" % (inp["cls"], inp["kind"], outcome))
 
-    with warnings.catch_warnings(), np.errstate(all="ignore"):
+    with warnings.catch_warnings(), np.errstate(all="ignore"), core.log_config(trace["config"].get("logging", "quiet")):
         warnings.simplefilter("ignore")
+        count("logging." + (trace["config"].get("logging") or "quiet"))
         try:
             if violation is not None:
                 raise _Violation(violation["clause"], violation["site"], violation["detail"])
